@@ -1,5 +1,6 @@
 import Ubx.Proofs.Message
 import Ubx.Proofs.Sorting
+import Ubx.Proofs.CfgVal
 import Ubx.Generated.Tables
 /-!
 # C14 — configuration-database messages carry exactly the keys and values given
@@ -168,5 +169,40 @@ theorem C14_header (l t : Nat) (hl : l < 256) (ht : t < 256) :
     simp only [Int.natCast_one] at h1
     simp only [h1, e l hl, e t ht, pure, Except.pure, List.cons_append, List.nil_append]
     rfl
+
+/-! ### parsing CFG-VALSET / CFG-VALGET payloads -/
+
+/-- the key/value walk over `header ++ key₁ value₁ key₂ value₂ …` (32-bit LE ids, values at the width of their
+    type) performs, in order, exactly one `setattr(name, decoded value)` per item — for known keys (name and type from
+    the database) and unknown ones (`CFG_0x…`, `X` type of the size code's width) alike — and nothing else -/
+theorem C14_cfgval_parse (c : WCtx) (items : List CfgItem) (hok : ∀ it ∈ items, it.ok c.ctx)
+    (hdr : Bytes) (hh : 4 ≤ hdr.length) (env env' : Env) (hs : applyAllDecoded c env items = .ok env') :
+    cfgLoop c (hdr ++ encCfg items) ((hdr ++ encCfg items).length - 4) (items.length + 1) hdr.length env = .ok env' :=
+  cfgLoop_spec c items hok hdr env env' (items.length + 1) (by omega) hh hs
+
+/-- … which is what the group of a CFG-VALGET (GET) / CFG-VALSET (SET) message runs (4-byte header before it) -/
+theorem C14_wCfgVal (c : WCtx) (hp : c.hasPayload = true) (items : List CfgItem) (hok : ∀ it ∈ items, it.ok c.ctx)
+    (hdr : Bytes) (hh : hdr.length = 4) (env env' : Env) (hs : applyAllDecoded c env items = .ok env') :
+    wCfgVal c ⟨4, hdr ++ encCfg items, env⟩ = .ok ⟨4, hdr ++ encCfg items, env'⟩ := by
+  unfold wCfgVal
+  simp only [hp, Bool.not_true, Bool.false_eq_true, if_false]
+  have hlen : ∀ it ∈ items, 5 ≤ it.enc.length := by
+    intro it hit
+    obtain ⟨_, _, h3, h4⟩ := hok it hit
+    simp [CfgItem.enc, h3]; omega
+  have hge : items.length ≤ (encCfg items).length := by
+    clear hs hok
+    induction items with
+    | nil => simp [encCfg]
+    | cons it rest ih =>
+      have h5 := hlen it (List.mem_cons_self ..)
+      have := ih (fun x hx => hlen x (List.mem_cons_of_mem _ hx))
+      simp only [encCfg, List.map_cons, List.flatten_cons, List.length_append, List.length_cons] at this ⊢
+      omega
+  -- the loop's own fuel (cfglen + 1) is enough: every item is at least 5 bytes long
+  have := cfgLoop_spec c items hok hdr env env' ((hdr ++ encCfg items).length - 4 + 1)
+    (by rw [List.length_append]; omega) (by omega) hs
+  rw [hh] at this
+  simp only [this]
 
 end Ubx
